@@ -119,10 +119,10 @@ def build_history(name, burst_idx=None, cuts=(), dribble=False, close_with_last=
     return role, hist, owner
 
 
-def observe(role, hist, owner, nrounds, recv_limit=None, prequeue=0, deviations=None):
+def observe(role, hist, owner, nrounds, recv_limit=None, prequeue=0, deviations=None, mpl=16384):
     # a deviation may only bring forward the next segment of the same burst (never a local reaction or another round)
     guard = lambda pos: pos > 0 and hist[pos][0] in ('bytes', 'bytes_close') and hist[pos - 1][0] == 'bytes' and owner[pos] == owner[pos - 1]
-    env = e2.Env(role, hist, recv_limit=recv_limit, prequeue=prequeue, deviations=deviations, budget=3000, dev_guard=guard).run()
+    env = e2.Env(role, hist, recv_limit=recv_limit, prequeue=prequeue, deviations=deviations, budget=3000, dev_guard=guard, max_pdu_length=mpl).run()
     per = [{'inds': [], 'wire': [], 'close': 0} for _ in range(nrounds)]
     # steps[0] is start-up; step i (1-based) belongs to history position i-1, except pre-queued positions
     consumed_pre = env.steps[0].get('pre', 0) if env.steps else 0
@@ -184,6 +184,15 @@ def cases(tier, seed):
                         for d in (-1, 0, 1):
                             if 0 < c + d < L:
                                 yield {'conv': name, 'burst': bi, 'cuts': [c + d], 'recv': None, 'pre': pre, 'glue': True}
+                # the provider's own maximum PDU length (also its read size): unlimited (0), and smaller than the PDUs it receives
+                for mpl in (0, 10, 64):
+                    for glue in ((False, True) if 'CLOSE' in burst else (False,)):
+                        extra = {'glue': True} if glue else {}
+                        yield dict({'conv': name, 'burst': bi, 'cuts': [], 'recv': None, 'pre': pre, 'mpl': mpl}, **extra)
+                        yield dict({'conv': name, 'burst': bi, 'cuts': 'dribble', 'recv': None, 'pre': pre, 'mpl': mpl}, **extra)
+                        for c in (range(1, L) if thorough else sorted(set([1, 5, 6, 7, L // 2, L - 1] + bounds + [b + 3 for b in bounds]))):
+                            if 0 < c < L:
+                                yield dict({'conv': name, 'burst': bi, 'cuts': [c], 'recv': None, 'pre': pre, 'mpl': mpl}, **extra)
                 # pairs
                 stride = 1 if thorough else max(1, L // 28)
                 pts = sorted(set(list(range(1, L, stride)) + [b + d for b in [0] + bounds for d in (-1, 1, 5, 6, 7) if 0 < b + d < L]))
@@ -233,7 +242,7 @@ def run_case(case):
         e2.Env(drole, dead, budget=3000).run()
     role, hist, owner = build_history(name, case['burst'], () if dribble else case['cuts'], dribble, case.get('glue', False))
     dev = {d: True for d in case.get('dev', [])} or None
-    got = observe(role, hist, owner, nr, case['recv'], case['pre'], dev)
+    got = observe(role, hist, owner, nr, case['recv'], case['pre'], dev, case.get('mpl', 16384))
     viol = []
     if got != ref:
         # first difference
@@ -249,8 +258,8 @@ def run_case(case):
             diff = 'final %r versus canonical %r' % (got['final'], ref['final'])
         kind = 'after-dead-association' if case.get('after_dead') else 'pre' if case['pre'] else ('dev' if dev else ('close-with-data' if case.get('glue') else ('recv' if case['recv'] else 'cut')))
         viol.append(('c03:%s:%s' % (name, kind), 'delivery %s differs from one-PDU-per-segment delivery: %s' % (
-            {k: case[k] for k in ('burst', 'cuts', 'recv', 'pre', 'dev') if k in case}, diff)))
-    key = (name, case['burst'], tuple(case['cuts']) if not dribble else 'dribble', case['recv'], case['pre'], tuple(case.get('dev', [])), case.get('glue', False), case.get('after_dead'))
+            {k: case[k] for k in ('burst', 'cuts', 'recv', 'pre', 'dev', 'mpl', 'glue') if k in case}, diff)))
+    key = (name, case['burst'], tuple(case['cuts']) if not dribble else 'dribble', case['recv'], case['pre'], tuple(case.get('dev', [])), case.get('glue', False), case.get('after_dead'), case.get('mpl'))
     return {'viol': viol, 'case': case if viol else None, 'key': key,
             'sample': case if case['cuts'] == [6, 7] else None}
 
